@@ -64,7 +64,7 @@ func copyProof(p *merkle_proof.MerkleProof) *merkle_proof.MerkleProof {
 }
 
 var c18Obs struct {
-	valid, corrupt, sideBlocks, bestBlocks, prunedBlocks int64
+	valid, corrupt, sideBlocks, bestBlocks, prunedBlocks, removedBlocks int64
 }
 
 // c18Post verifies proofs for the blocks of a finished history against the live repository.
@@ -287,6 +287,31 @@ func c18Post(ctx context.Context, run *common.Run, res *GenResult, idx int) {
 				p.BlockHash = nil
 				return true
 			})
+		}
+	}
+	// blocks whose header was excluded by invalid-marking (and not accepted again): the repository
+	// no longer holds them, so a proof for one of them must not be reported as tying the
+	// transaction to the best chain
+	nrem := 0
+	for h, n := range m.Ever {
+		txids, ok := res.Blocks[h]
+		if !ok || !n.Removed || m.Nodes[h] != nil || nrem >= 3 {
+			continue
+		}
+		nrem++
+		atomic.AddInt64(&c18Obs.removedBlocks, 1)
+		for _, mode := range []struct{ hdr, hash bool }{{true, false}, {false, true}} {
+			pc := proofCase{Block: h, Txids: txids, Index: 0, UseHdr: mode.hdr, UseHash: mode.hash}
+			hh, l, err, pan := verify(buildProof(n.Header, pc))
+			run.Eval(1)
+			if pan != "" {
+				report("verification-never-crashes", "verify-panic/removed-block", pan, pc)
+				continue
+			}
+			if err == nil && l {
+				report("reports-true-height-and-best-chain-status", fmt.Sprintf("proof-for-header-excluded-by-invalid-marking-reported-on-best-chain/hdr=%v", mode.hdr),
+					fmt.Sprintf("block h=%d excluded by invalid-marking: proof verified as (%d, on best chain)", n.Height, hh), pc)
+			}
 		}
 	}
 }
